@@ -777,3 +777,10 @@ mod tests {
         assert!(s2.unseal(&v).unwrap_err().starts_with("checksum:"));
     }
 }
+
+impl SealCtx {
+    /// Context from raw keys (for contexts that were not derived from an exported session key)
+    pub fn from_keys(send_seal: &[u8], recv_seal: &[u8], send_sign: [u8; 16], recv_sign: [u8; 16]) -> SealCtx {
+        SealCtx { send_rc4: Rc4::new(send_seal), recv_rc4: Rc4::new(recv_seal), send_sign, recv_sign, send_seq: 0, recv_seq: 0 }
+    }
+}
